@@ -22,6 +22,38 @@ PID = "C08"
 SK = [("table", 2), ("table", 3), ("seq", 1), ("unsup", 2), ("insert", 2), ("set", 1), ("alter", 1)]
 
 
+# comment lines that LOOK like another comment style inside a block comment; (text, tables expected)
+SPECIAL = [("/* legacy\n-- end of legacy section */\nCREATE TABLE k1 (id int, note varchar(10));\n", [("k1", ["id", "note"])]),
+           ("/* a\n# b\n-- c\nd */\nCREATE TABLE k1 (id int);\nCREATE TABLE k2 (id int);\n", [("k1", ["id"]), ("k2", ["id"])]),
+           ("CREATE TABLE k1 (\nid int,\n/* x\n-- y */\nnote varchar(10)\n);\n", [("k1", ["id", "note"])]),
+           ("/*\n--\n*/\nCREATE TABLE k1 (id int);\n", [("k1", ["id"])]),
+           ("-- a\n--b\n#c\nCREATE TABLE k1 (id int); -- d\n--e\nCREATE TABLE k2 (\n--f\nid int -- g (\n#h )\n);\n", [("k1", ["id"]), ("k2", ["id"])]),
+           ("CREATE TABLE k1 (id int -- 1) key\n, note varchar(10) /* (( */\n)\nCREATE TABLE k2 (id int)\n", [("k1", ["id", "note"]), ("k2", ["id"])])]
+
+
+def _file_and_text(text):
+    """the same text through DDLParser(text).run() and through parse_from_file: -> (outcome, outcome)"""
+    import tempfile
+    import os
+    lib = C._import_lib()
+    outs = []
+    for how in ("text", "file"):
+        try:
+            if how == "text":
+                r = lib.DDLParser(text).run()
+            else:
+                with tempfile.NamedTemporaryFile("w", suffix=".sql", delete=False, encoding="utf-8") as f:
+                    f.write(text)
+                try:
+                    r = lib.parse_from_file(f.name)
+                finally:
+                    os.unlink(f.name)
+            outs.append(("ok", C.jnorm(r)))
+        except BaseException as e:  # noqa
+            outs.append(("exc", type(e).__name__, str(e)[:200]))
+    return outs
+
+
 def judge(V, behs, res, seed, what):
     ndrift = nbad = 0
     for b, (text, out, subs) in zip(behs, res):
@@ -61,7 +93,11 @@ def run(tier, seed):
             ("one 2- or 3-line table, 2 comments", F.consts([("table", 3), ("table", 2)], MaxStmts=1, CmStyles=F.ALLCM, MaxCm=2)),
             ("<=2 statements of 4 shapes, 1 comment, indented or not, text with or without --",
              F.consts(SK[:4], MaxStmts=2, CmStyles=F.ALLCM, MaxCm=1, Indents="{FALSE, TRUE}", DashInText="{FALSE, TRUE}"))]
+    NS = [("tablens", 2), ("tablens", 3), ("table", 2), ("seq", 1), ("alter", 1), ("view", 1)]
+    cfgs.append(("<=2 statements, tables written without `;` among them, 1 comment of 8 styles", F.consts(NS, MaxStmts=2, CmStyles=F.ALLCM, MaxCm=1)))
+    cfgs.append(("two unterminated tables, 2 comments", F.consts(NS[:2], MaxStmts=2, CmStyles='{"dash","hash","blk1","tdash","tblk1"}', MaxCm=2)))
     if thorough:
+        cfgs.append(("3 statements with unterminated tables, 2 comments", F.consts(NS[:5], MaxStmts=3, CmStyles=F.ALLCM, MaxCm=2)))
         cfgs.append(("<=2 statements, 2 comments", F.consts(SK[:5], MaxStmts=2, CmStyles=F.ALLCM, MaxCm=2)))
         cfgs.append(("3 statements, 1 comment", F.consts(SK, MaxStmts=3, CmStyles=F.ALLCM, MaxCm=1)))
     for what, cs in cfgs:
@@ -101,6 +137,23 @@ def run(tier, seed):
         tot_drift += nd
         total += len(ub)
         cov["generation"].append({"config": "simulation (<=4 statements, <=3 comments)", "replayed": len(ub), "mismatches": nb})
+    # ---- the file entry point reads the same comments the same way -------------------------------------------------------------
+    fb = [b for cfgb in [locals().get("behs", [])] for b in cfgb if not F.spec_tags(b)]
+    fb = rnd.sample(fb, min(len(fb), 1500 if thorough else 300))
+    ftexts = [(A.render(b, b["stmts"], seed), [(e["name"], e["cols"]) for e in A.expected_entities(b, b["stmts"]) if e["kind"] == "table"], True) for b in fb]
+    ftexts += [(t, exp, False) for t, exp in SPECIAL]
+    fres = C.pool().map(_file_and_text, [t for t, _, _ in ftexts], 16)
+    for (t, exp, gen), (ot, of) in zip(ftexts, fres):
+        for how, o in (("DDLParser(text)", ot), ("parse_from_file", of)):
+            got = [(e["table_name"], [c["name"] for c in e["columns"]]) for e in o[1] if "table_name" in e and e.get("columns")] if o[0] == "ok" else o
+            if got != [(n, list(c)) for n, c in exp]:
+                V.mismatch({"what": "comment lines shaped like other comment styles / file entry point", "entry": how, "ddl": t, "paths": ["entities"],
+                            "expected": [{"kind": "table", "name": n, "cols": c, "uniq": []} for n, c in exp], "observed": got}, paths=["entities"])
+        if ot != of:
+            V.mismatch({"what": "parse_from_file and DDLParser(text) read the comments of the same text differently", "ddl": t, "paths": ["entry_points"],
+                        "expected": [{"kind": "table", "name": n, "cols": c, "uniq": []} for n, c in exp], "observed": {"text": ot, "file": of}}, paths=["entry_points"])
+    total += len(ftexts)
+    cov["file_entry_point"] = {"generated_scripts": len(fb), "special_scripts": len(SPECIAL)}
     # ---- code -> spec: the real assembler's per-line events on the regression corpus, validated by TLC --------------------------
     from .. import corpus as CP
     from .. import trace_asm as TA
